@@ -1066,8 +1066,8 @@ def sym_place(fn, place, depth=0):
             return ('s', '_%d%s' % (local, ''.join(proj)))
         nm = fn.local_name(local)
         if nm:
-            return ('phi', '%s%s' % (nm, ''.join(proj)))
-        return ('phi', '_%d%s' % (local, ''.join(proj)))
+            return ('phi', '%s%s' % (nm, ''.join(proj)), local)
+        return ('phi', '_%d%s' % (local, ''.join(proj)), local)
     kind, site = ds[0]
     n = site.node
     if kind == 'assign':
@@ -1118,6 +1118,31 @@ def sym_place(fn, place, depth=0):
             return _proj(sym(fn, site.args[0], depth + 1), proj)
         args = tuple(sym(fn, a, depth + 1) for a in site.args)
         return _proj(('call', site.callee_full or site.callee or 'ptr', args), proj)
+
+
+def phi_alternatives(fn, term, depth=0):
+    """All value alternatives of a term whose root is a phi (multi-definition local): the symbolic value of each
+    definition, recursively (bounded).  Non-phi terms yield themselves."""
+    if term[0] != 'phi' or len(term) < 3 or depth > 6:
+        return [term]
+    out = []
+    for kind, site in fn.defs.get(term[2], []):
+        n = site.node
+        if kind == 'assign':
+            rv = n[2]
+            if rv[0] == 'use':
+                sub = sym(fn, rv[1])
+            elif rv[0] in ('ref', 'rawptr'):
+                sub = sym_place(fn, rv[2])
+            elif rv[0] == 'cast':
+                sub = sym(fn, rv[2])
+            else:
+                sub = ('?', rv[0])
+        else:
+            args = tuple(sym(fn, a) for a in site.args)
+            sub = ('call', site.callee_full or site.callee or 'ptr', args)
+        out.extend(phi_alternatives(fn, sub, depth + 1))
+    return out or [term]
 
 
 def _proj(t, proj):
